@@ -22,7 +22,7 @@ ASSUMPTIONS = [
     "limit prices are generated at least 0.25% away from neighbouring levels, so a +-0.1% window selects at most one level",
 ]
 MIN_NONTRIVIAL = {"quick": 1000, "thorough": 20000}
-REQUIRED_LABELS = ["buy.fill", "sell.fill", "multi_level", "partly_consumed_level", "mode.market", "mode.token", "mode.usd", "mode.cap", "reject.depth", "reject.cash", "reject.not_held", "refresh", "cfg.BTC", "sizes.float"]
+REQUIRED_LABELS = ["buy.fill", "sell.fill", "multi_level", "partly_consumed_level", "mode.market", "mode.token", "mode.usd", "mode.cap", "reject.depth", "reject.cash", "reject.not_held", "refresh", "cfg.BTC", "sizes.float", "estimate_cost"]
 
 EPS = Decimal("1e-9")
 
@@ -115,6 +115,15 @@ def body(case, ctx: Ctx):
             elif len(mode) > 3 and mode[3] is not None:
                 kw["max_mark_price_multiple"] = Decimal(mode[3])
             labels.add(f"mode.{mode[0]}" if not (len(mode) > 3 and mode[3]) else "mode.cap")
+            est = None
+            exact_level = mode[0] == "token" and any(dd(lv[0]) == Decimal(mode[1]) for lv in side0)
+            # (the estimate takes a limit price literally; buy() accepts +-0.1% around a level - only literal prices are compared)
+            if is_buy and (mode[0] == "market" or exact_level) and "max_mark_price_multiple" not in kw and not any(tn == name and tb for tn, tb, _ in touched):
+                # the public cost estimate of the same order on an untouched book (it reads the bar's data row)
+                try:
+                    est = m.estimate_cost(name, Decimal(amount), "buy", kw.get("price_in_token"))
+                except Exception:  # noqa: an order that cannot be filled has no estimate
+                    est = None
             try:
                 ret = (m.buy if is_buy else m.sell)(name, Decimal(amount), **kw)
                 ok, err = True, None
@@ -149,6 +158,8 @@ def body(case, ctx: Ctx):
                     ctx.check(d_pos == (filled if is_buy else -filled), f"{sig}.boundary.position_vs_fills", lambda: f"{kind} {amount} {name} mode {mode}: position changed by {d_pos} but the fills {[(str(o.price), str(o.amount)) for o in orders]} add up to {filled}", case)
                     exp_cash = cash0 - prem - got_fee if is_buy else cash0 + prem - got_fee
                     ctx.check(m.balance == exp_cash, f"{sig}.boundary.cash_vs_fills", lambda: f"{kind} {amount} {name} mode {mode}: cash {cash0} -> {m.balance}, fills are worth {prem}, fee {got_fee}", case)
+                    for o in orders:
+                        touched.add((name, is_buy, dd(o.price)))
                 continue
             if exp[0] == "reject":
                 why = exp[1]
@@ -166,6 +177,9 @@ def body(case, ctx: Ctx):
             orders, got_fee = ret
             got = [(dd(o.price), dd(o.amount)) for o in orders]
             ctx.check(len(got) == len(fills) and all(g[0] == f[0] and g[1] == f[1] for g, f in zip(got, fills)), f"{sig}.fills", lambda: f"{kind} {amount} {name} mode {mode} on {side0}: filled {got}, expected {fills}", case)
+            if est is not None:
+                labels.add("estimate_cost")
+                ctx.check(est == premium + fee, f"{sig}.estimate_cost", lambda: f"estimate_cost said {est}; the order then cost {premium} + fee {fee}", case)
             ctx.check(got_fee == fee, f"{sig}.fee", lambda: f"fee {got_fee} vs min(0.03% x {amt}, 12.5% x {premium}) = {fee}", case)
             exp_cash = cash0 - premium - fee if is_buy else cash0 + premium - fee
             ctx.check(m.balance == exp_cash, f"{sig}.cash", lambda: f"cash {cash0} -> {m.balance}, expected {exp_cash} (premium {premium}, fee {fee})", case)
